@@ -53,8 +53,9 @@ Scopes == {"all", "mod", "mod2"} \cup Params   \* activate / activate m / activa
 (* Errors that are not SECoP errors are re-wrapped per parameter and carry no context.           *)
 Nest(e) == CASE e = "e1" -> "n1" [] e = "e2" -> "n2" [] e = "e4" -> "n4"
             [] e = "i1" -> "ni1" [] e = "i2" -> "ni2" [] OTHER -> e
-Base(e) == CASE e = "n1" -> "e1" [] e = "n2" -> "e2" [] e = "n4" -> "e4"
-            [] e = "ni1" -> "i1" [] e = "ni2" -> "i2" [] OTHER -> e
+(* (the validation error of the inner parameter handed on to the outer one, ni<k>, is another error *)
+(* than the outer parameter's own i<k>: other datatype, other text)                                *)
+Base(e) == CASE e = "n1" -> "e1" [] e = "n2" -> "e2" [] e = "n4" -> "e4" [] OTHER -> e
 AllErrs == Errs \cup Invs \cup {Nest(e) : e \in Errs \cup Invs} \cup {InitErr}
 
 VARIABLES cache,   \* [Params -> [val, err, ts]]
